@@ -46,7 +46,10 @@ def main():
         d = json.loads(m.read_text())
         keys = sorted({l.strip()[5:].strip().split(":")[0] for r in d.get("checks", {}).values()
                        for l in r.get("lines", []) if l.strip().startswith("what:")})
-        rows.append(f"| {d['id']} | {d['property']} | {', '.join(d.get('caught_by', [])) or 'MISSED'} | {'; '.join(keys)[:100]} |")
+        caught = ', '.join(d.get('caught_by', []))
+        if not caught and (d.get('recheck_after_strengthening') or {}).get('caught_by_scenarios'):
+            caught = d['property'] + ' (scenario library, see meta.json)'
+        rows.append(f"| {d['id']} | {d['property']} | {caught or 'MISSED'} | {'; '.join(keys)[:100]} |")
     seeds = "\n".join(rows)
     p = VERIF / "DESIGN.md"
     t = p.read_text()
